@@ -63,9 +63,19 @@ func closeMethods(c *core.Ctx) []*ssa.Function {
 // bodyAndClosures returns fn plus all anonymous functions nested in it.
 func bodyAndClosures(fn *ssa.Function) []*ssa.Function {
 	out := []*ssa.Function{fn}
-	for _, a := range fn.AnonFuncs {
-		out = append(out, bodyAndClosures(a)...)
+	seen := map[*ssa.Function]bool{fn: true}
+	var add func(f *ssa.Function)
+	add = func(f *ssa.Function) {
+		kids := append(append([]*ssa.Function{}, f.AnonFuncs...), core.AliasedClosures(f)...)
+		for _, a := range kids {
+			if !seen[a] {
+				seen[a] = true
+				out = append(out, a)
+				add(a)
+			}
+		}
 	}
+	add(fn)
 	return out
 }
 
